@@ -16,7 +16,8 @@ Two families of cases:
                as many variables as the mgu does.
 """
 import random
-from lib import terms
+from lib import terms, pyconsts
+from lib.pyconsts import to_model
 from props import c02_sched as S
 from lib.terms import g_term, g_list, g_pair, g_nat
 
@@ -32,6 +33,9 @@ RULE = ('ALL 576 pairs of terms of depth <= 2 over {a, b, X0, X1, f/1, g/2} exha
         'earlier unifications that are still suspended; atoms come from two engine instances; each pair is also run '
         'swapped. Non-trivial: both sides compound or a variable chain of length >= 2 is involved, and the two sides '
         'share a variable or a stacked binding is dereferenced. '
+        'Round 4: 30% of the random pairs and schedules carry constants that only the Python API can produce (pool of 74 values in clusters of easily confused ones: equal across '
+        'types, nearly equal, spelled alike, all empty), 300 pairs of such constants meeting in 14 shapes (directly, under a repeated variable, through active bindings / aliases, in lists), '
+        'and EVERY pair inside each cluster; expected outcome also from a reference unifier with == on the real values. '
         "kind 'sched' (creation and start are different moments): schedules of 2-5 unify generators over 2-5 shared variables "
         '(variable-variable, variable-constant, variable-compound and compound-compound pairs), events create / next / close / drop, '
         'started generators LIFO, creation at any time, plus ALL schedules "create g0, create g1, start them in either order" over a '
@@ -46,7 +50,9 @@ TRUSTED_BASE = [
     "reference unifier of the intrinsic oracle (harness/props/c02.py: _ref_unify, textbook algorithm with occurs check on JSON terms)",
 ]
 ASSUMPTIONS = ['cases whose solution needs a cyclic term (model result UCyc) are unspecified by the property: only required not to hang',
-               'raw Python constants are ints and strs (bool/float equality quirks of == are outside the model)']
+               'Python constants: the engine compares two constants with ==; on the generated pool (None, bools, ints, floats, Fraction, Decimal, complex, bytes, tuples, lists, strs; '
+               'harness/lib/pyconsts.py) == is an equivalence except for NaN, and the model gets the ==-class of a constant as an opaque value; NaN (not equal to itself) is judged by '
+               'the reference unifier of the oracle alone']
 CASE_TIMEOUT = 10
 
 def gen(rng, tier):
@@ -69,11 +75,96 @@ def gen(rng, tier):
             t2 = terms.rand_term(rng, nv, depth, pvar=0.35)
         if rng.random() < 0.5:
             t1, t2 = t2, t1
+        if rng.random() < 0.3:
+            # round 4: constants that only the Python API can produce (lib/pyconsts.py), a few per case and mostly from one
+            # cluster of easily confused values, in place of atom / int / str leaves of both terms and of the stack
+            pal = pyconsts.palette(rng)
+            p = rng.choice([0.3, 0.6, 0.9])
+            stack = [[pyconsts.sprinkle(rng, a, pal, p), pyconsts.sprinkle(rng, b, pal, p)] for a, b in stack]
+            t1 = pyconsts.sprinkle(rng, t1, pal, p)
+            t2 = pyconsts.sprinkle(rng, t2, pal, p)
         cases.append({'stack': stack, 't1': t1, 't2': t2, 'nvars': nv, 'engsalt': rng.randrange(4)})
+    cases.extend(const_shape(rng) for _ in range(300 if tier == 'quick' else 3000))
+    cases.extend(const_pairs(tier))
     cases.extend(exhaustive_pairs(tier))
     cases.extend(S.gen_case(rng) for _ in range(900 if tier == 'quick' else 10000))
     cases.extend(S.exhaustive(tier))
     return cases
+
+def _shape(k, c1, c2, c3, rng=None):
+    """(stack, t1, t2, nvars): the ways two constants c1, c2 meet in a unification"""
+    v = lambda i: ['v', i]
+    f = lambda n, *xs: ['f', n, list(xs)]
+    a = ['a', 'a']
+    if k == 0:
+        return [], c1, c2, 1                                              # directly
+    if k == 1:
+        return [[v(0), c1]], v(0), c2, 1                                  # through an active binding
+    if k == 2:
+        return [], f('f', v(0), v(0)), f('f', c1, c2), 1                  # a variable that occurs twice
+    if k == 3:
+        return [], f('p', v(0), c2), f('p', c1, v(0)), 1
+    if k == 4:
+        return [], f('h', v(0), v(1), v(1)), f('h', c1, v(0), c2), 2      # through an alias
+    if k == 5:
+        return [], terms.mklist([c3, c1, v(0)]), terms.mklist([c3, c2, v(0)]), 1
+    if k == 6:
+        return [], terms.mklist([c1], v(0)), terms.mklist([v(1), c3, c2]), 2
+    if k == 7:
+        return [[v(0), v(1)], [v(1), c1]], f('f', v(0), v(2)), f('f', c2, c3), 3   # chain of active bindings
+    if k == 8:
+        return [[v(0), c1]], f('g', v(0), v(1)), f('g', v(1), c2), 2
+    if k == 9:
+        return [[v(0), c1], [v(1), c2]], v(0), v(1), 2                     # two bound variables
+    if k == 10:
+        return [[v(0), c1]], f('g', v(0), v(0)), f('g', v(0), v(1)), 2     # a bound variable against itself
+    if k == 11:
+        return [], f('f', c1, a), f('f', c2, a), 0
+    if k == 12:
+        return [[v(0), f('f', c1)]], v(0), f('f', c2), 1
+    return [[v(0), c1]], terms.mklist([v(0), v(1)]), terms.mklist([v(1), c2]), 2
+N_SHAPES = 14
+
+def const_shape(rng):
+    """two (three) constants, mostly of one cluster of easily confused values - or a constant and the atom / int / str
+    that looks like it -, meeting in one of the shapes above"""
+    pal = pyconsts.palette(rng)
+    c1, c2, c3 = (list(rng.choice(pal)) for _ in range(3))
+    q = rng.random()
+    if q < 0.15:
+        c2 = list(c1)
+    elif q < 0.25:
+        m = pyconsts.to_model(c1)
+        if not (m[0] == 's' and m[1].startswith('\x00')):
+            c2 = m                                          # the plain int / str of the same class, if it has one
+    elif q < 0.32:
+        c2 = ['a', rng.choice(['a', '[]', 'b'])]
+    st, t1, t2, nv = _shape(rng.randrange(N_SHAPES), c1, c2, c3)
+    if rng.random() < 0.5:
+        t1, t2 = t2, t1
+    if rng.random() < 0.3:
+        st = [[b, a] for a, b in st]
+    return {'stack': st, 't1': t1, 't2': t2, 'nvars': max(nv, 1), 'engsalt': rng.randrange(4), 'origin': 'const-shape'}
+
+def const_pairs(tier):
+    """EVERY unordered pair of constants inside each cluster of lib/pyconsts.py (values that are equal across types, nearly
+    equal, spelled alike, or all 'empty'), each in one of the four basic shapes in turn (thorough tier: in all four, and
+    all pairs of the whole pool directly)"""
+    out = []
+    n = 0
+    for idx in pyconsts.CLUSTER_IDX:
+        for x in range(len(idx)):
+            for y in range(x, len(idx)):
+                for k in ([n % 4] if tier == 'quick' else [0, 1, 2, 3]):
+                    st, t1, t2, nv = _shape(k, ['c', idx[x]], ['c', idx[y]], ['i', 1])
+                    out.append({'stack': st, 't1': t1, 't2': t2, 'nvars': max(nv, 1), 'engsalt': 0, 'origin': 'const-pairs'})
+                n += 1
+    if tier != 'quick':
+        for x in range(len(pyconsts.POOL)):
+            for y in range(x + 1, len(pyconsts.POOL)):
+                if pyconsts.CLUSTER_OF[x] != pyconsts.CLUSTER_OF[y]:
+                    out.append({'stack': [], 't1': ['c', x], 't2': ['c', y], 'nvars': 1, 'engsalt': 0, 'origin': 'const-pairs'})
+    return out
 
 def exhaustive_pairs(tier):
     """ALL pairs of terms of depth <= 2 over {a, b, X0, X1, f/1, g/2} (24 terms, 576 pairs), started from no active
@@ -114,8 +205,16 @@ def builtin_corpus():
 def model_expr(case):
     if case.get('kind') == 'sched':
         return S.model_expr(case)
-    stk = g_list([g_pair(g_term(a), g_term(b)) for a, b in case['stack']])
-    return '(run_unify 200 %s %s %s %s)' % (stk, g_term(case['t1']), g_term(case['t2']), g_nat(case['nvars']))
+    if _has_nan(case):
+        return None          # NaN is not equal to itself: no model with an equality on constants fits; judged by the oracle
+    stk = g_list([g_pair(g_term(to_model(a)), g_term(to_model(b))) for a, b in case['stack']])
+    return '(run_unify 200 %s %s %s %s)' % (stk, g_term(to_model(case['t1'])), g_term(to_model(case['t2'])), g_nat(case['nvars']))
+
+def _has_nan(case):
+    return any(pyconsts.has_nan(t) for p in case['stack'] for t in p) or pyconsts.has_nan(case['t1']) or pyconsts.has_nan(case['t2'])
+
+def _has_const(case):
+    return any(pyconsts.has_const(t) for p in case['stack'] for t in p) or pyconsts.has_const(case['t1']) or pyconsts.has_const(case['t2'])
 
 def _salted(t, salt, pos=[0]):
     """atoms come from alternating engine instances"""
@@ -129,7 +228,7 @@ def _salted(t, salt, pos=[0]):
 def _drive(case, swap):
     from yldprolog import engine as E
     engines = [E.YP(), E.YP()]
-    T = terms.ImplTerms(engines, case['nvars'])
+    T = pyconsts.make_impl_terms(engines, case['nvars'])
     held = []
     for a, b in case['stack']:
         g = iter(E.unify(T.build(_salted(a, case['engsalt'])), T.build(_salted(b, case['engsalt']))))
@@ -158,7 +257,10 @@ def _drive(case, swap):
         if swap:
             gv1, gv2 = gv2, gv1
         res = ['ok', terms.term_obs(r1), terms.term_obs(r2), [terms.term_obs(x) for x in vs]]
-        extra = {'gv1': gv1 == r1, 'gv2': gv2 == r2}
+        gvs = [T.read(E.get_value(v), resolve=False) for v in T.vars[:case['nvars']]]
+        flags = T.bound_state()[:case['nvars']]
+        extra = {'gv1': gv1 == r1, 'gv2': gv2 == r2, 'gvv': gvs == vs,
+                 'flags': all(f == (x != ['v', i]) for i, (f, x) in enumerate(zip(flags, vs)))}
         try:
             next(g)
             yields = 2
@@ -205,12 +307,27 @@ def compare(case, io, mo):
         return 'outcome differs from the model (expected %r)' % (mo[0],)
     return None
 
+def _reference(case):
+    """'ok' | 'clash' | 'cyc' | 'stack': textbook unification of the stack's equations and then the goal's, constants compared
+    by Python == on the real values (lib/pyconsts.py: the rule of the unchanged engine) - independent of the Coq model"""
+    return pyconsts.ref_outcome([tuple(p) for p in case['stack']] + [(case['t1'], case['t2'])])
+
 def oracle(case, io):
+    if case.get('kind') == 'sched':
+        return S.oracle(case, io) if isinstance(io, dict) else None
+    want = _reference(case)
+    if io == ['stack']:
+        return None if want in ('stack', 'cyc') else 'a unification of the stack does not yield although its terms are unifiable under the bindings active then'
     if not isinstance(io, dict):
         return None
-    if case.get('kind') == 'sched':
-        return S.oracle(case, io)
     f, s = io['fwd'], io['swapped']
+    if want == 'stack':
+        return 'every unification of the stack yields although one of them has no unifier under the bindings active then'
+    for d, name in ((f, 'unify(t1,t2)'), (s, 'unify(t2,t1)')):
+        if want == 'ok' and d['res'][0] == 'fail':
+            return '%s does not yield although the terms are unifiable under the active bindings (constants by ==)' % name
+        if want == 'clash' and d['res'][0] == 'ok':
+            return '%s yields although the terms are not unifiable under the active bindings (constants by ==)' % name
     if f['yields'] > 1:
         return 'unify yielded more than once'
     if not f['restored']:
@@ -220,8 +337,10 @@ def oracle(case, io):
     if f['res'][0] == 'ok':
         if f['res'][1] != f['res'][2]:
             return 'the two terms do not dereference to the same term at the yield'
-        if not (f['extra']['gv1'] and f['extra']['gv2']):
+        if not (f['extra']['gv1'] and f['extra']['gv2'] and f['extra'].get('gvv', True)):
             return 'get_value does not reflect the bindings at the yield'
+        if not f['extra'].get('flags', True):
+            return 'at the yield a variable that dereferences to something else is not flagged as bound (or the reverse)'
     if s['res'][0] in ('ok', 'fail') and f['res'][0] in ('ok', 'fail') and s['res'][0] != f['res'][0]:
         return 'unify(t1,t2) and unify(t2,t1) differ: %s vs %s' % (f['res'][0], s['res'][0])
     if s['res'][0] == 'ok' and f['res'][0] == 'ok':
@@ -249,8 +368,8 @@ def nontrivial(case, io):
 def describe(case):
     if case.get('kind') == 'sched':
         return S.describe(case)
-    return {'stack': ['%s = %s' % (terms.show_term(a), terms.show_term(b)) for a, b in case['stack']],
-            'goal': 'unify(%s, %s)' % (terms.show_term(case['t1']), terms.show_term(case['t2']))}
+    return {'stack': ['%s = %s' % (pyconsts.show_term(a), pyconsts.show_term(b)) for a, b in case['stack']],
+            'goal': 'unify(%s, %s)' % (pyconsts.show_term(case['t1']), pyconsts.show_term(case['t2']))}
 
 def shrink(case):
     if case.get('kind') == 'sched':
@@ -273,6 +392,11 @@ def shrink(case):
 
 def distribution(cases, obs):
     d = {'ok': 0, 'fail': 0, 'cyc-or-deep': 0, 'stack-fails': 0, 'other': 0, 'stack_depth': {}, 'both_compound': 0,
+         'pair_cases_with_python_api_constants': sum(1 for c in cases if c.get('kind') != 'sched' and _has_const(c)),
+         'pair_cases_with_nan_judged_by_the_oracle_alone': sum(1 for c in cases if c.get('kind') != 'sched' and _has_nan(c)),
+         'sched_cases_with_python_api_constants': sum(1 for c in cases if c.get('kind') == 'sched' and any(
+             e[0] == 'create' and (pyconsts.has_const(e[2]) or pyconsts.has_const(e[3])) for e in c['events'])),
+         'const_pairs_exhaustive_in_clusters': sum(1 for c in cases if c.get('origin') == 'const-pairs'),
          'exhaustive_small_scope_pairs': sum(1 for c in cases if c.get('origin') == 'exhaustive'),
          'exhaustive_small_scope_schedules': sum(1 for c in cases if c.get('origin') == 'exhaustive-sched')}
     d['sched'] = S.distribution(cases, obs)
